@@ -97,7 +97,10 @@ def main():
                     os.makedirs(proj); os.makedirs(cwd)
                     for rel in order:
                         os.makedirs(os.path.dirname(os.path.join(proj, rel)), exist_ok=True)
-                        open(os.path.join(proj, rel), 'w').write(rec['files'][rel])
+                        if isinstance(rec['files'][rel], list):
+                            os.symlink(rec['files'][rel][1], os.path.join(proj, rel))
+                        else:
+                            open(os.path.join(proj, rel), 'w').write(rec['files'][rel])
                     p = subprocess.run([binary, '--path', '../proj'], cwd=cwd, stdout=subprocess.PIPE, stderr=subprocess.PIPE)
                     rp = os.path.join(cwd, 'solstat_report.md')
                     reports.append(open(rp, 'rb').read() if p.returncode == 0 and os.path.exists(rp) else ('exit %d' % p.returncode).encode())
@@ -110,7 +113,10 @@ def main():
             proj = os.path.join(n.dir, 'proj')
             for rel, text in rec['files'].items():
                 os.makedirs(os.path.dirname(os.path.join(proj, rel)), exist_ok=True)
-                open(os.path.join(proj, rel), 'w').write(text)
+                if isinstance(text, list):
+                    os.symlink(text[1], os.path.join(proj, rel))
+                else:
+                    open(os.path.join(proj, rel), 'w').write(text)
             seen = set()
             for i in range(int(rec['runs'])):
                 cwd = os.path.join(n.dir, 'cwd%d' % i)
